@@ -2,11 +2,11 @@
 The dead-link flag `state` is written (phase 5) but never read: every operation maps connections
 that differ only in `state` to results that differ only in `state`.  Core Lean only.
 -/
-import KcpVerif.Lemmas.KcpFlush
+import KcpVerif.Lemmas.KcpLiveFlush
 import KcpVerif.Lemmas.KcpInput
 
-namespace KcpVerif.Kcp
-open KcpVerif KcpVerif.Gen
+namespace KcpVerif.Live
+open KcpVerif KcpVerif.Gen KcpVerif.Kcp
 
 /-- same connection except possibly the dead-link flag -/
 def KSE (a b : Kcp) : Prop := ∃ v, a = { b with state := v }
@@ -476,4 +476,4 @@ theorem misc_se {a b : Kcp} (h : KSE a b) :
     repeat' split
     all_goals first | exact ⟨v, rfl⟩ | contradiction
 
-end KcpVerif.Kcp
+end KcpVerif.Live
